@@ -9,11 +9,14 @@ import (
 	"sort"
 	"strconv"
 	"strings"
+	"sync"
 
 	"github.com/deckhouse/deckhouse/pkg/log"
 	"github.com/hashicorp/go-multierror"
+	apierrors "k8s.io/apimachinery/pkg/api/errors"
 	metav1 "k8s.io/apimachinery/pkg/apis/meta/v1"
 	"k8s.io/apimachinery/pkg/apis/meta/v1/unstructured"
+	"k8s.io/apimachinery/pkg/runtime"
 	"k8s.io/apimachinery/pkg/runtime/schema"
 	dynamicfake "k8s.io/client-go/dynamic/fake"
 	clienttesting "k8s.io/client-go/testing"
@@ -172,6 +175,26 @@ type c13Doc struct {
 	family string
 	fault  string
 	extra  bool // carries a key outside the documented set
+	key    int  // id of the object the operation addresses (0: none / not in the pool)
+	locks  bool // the operation writes with Get ... Update under the optimistic lock (CreateOrUpdate, JQPatch)
+}
+
+// c13Writer: one change somebody else makes to object `key`; it lands right before the next Update the
+// code under test sends for that object, and that Update is answered 409 Conflict.
+type c13Writer struct {
+	key   int
+	edits []c13Edit // set / del only
+}
+
+func c13WritersTok(ws []c13Writer) string {
+	if len(ws) == 0 {
+		return "-"
+	}
+	var ps []string
+	for _, w := range ws {
+		ps = append(ps, fmt.Sprintf("%d:%s", w.key, c13EditsTok(c13Pool[w.key-1].kind, w.edits)))
+	}
+	return strings.Join(ps, ";")
 }
 
 // ---------------------------------------------------------------- rendering
@@ -446,9 +469,77 @@ func c13AbstractPatch(kd string, k *c13Kind, p any) string {
 type c13Cluster struct {
 	fc  *fake.Cluster
 	dyn *dynamicfake.FakeDynamicClient
+
+	mu      sync.Mutex
+	writers []c13Writer // not landed yet
+	werr    string      // a problem inside the reactor (harness error)
 }
 
-func c13NewCluster(init map[int]c13Obj) (*c13Cluster, error) {
+// interfere is the "update" reactor: the history of the other clients of the API server. If a change
+// of somebody else is pending for the object being updated it is written to the store first and the
+// Update is answered 409 Conflict (its resourceVersion is stale), as a real API server does. The
+// object tracker of the fake has no optimistic lock of its own.
+func (cl *c13Cluster) interfere(action clienttesting.Action) (bool, runtime.Object, error) {
+	ua, ok := action.(clienttesting.UpdateActionImpl)
+	if !ok {
+		return false, nil, nil
+	}
+	u, ok := ua.GetObject().(*unstructured.Unstructured)
+	if !ok {
+		return false, nil, nil
+	}
+	kindName := ""
+	for i := range c13Kinds {
+		if c13Kinds[i].resource == action.GetResource().Resource {
+			kindName = c13Kinds[i].name
+		}
+	}
+	key := c13FindKey(kindName, action.GetNamespace(), u.GetName())
+	if key == nil {
+		return false, nil, nil
+	}
+	cl.mu.Lock()
+	defer cl.mu.Unlock()
+	at := -1
+	for i, w := range cl.writers {
+		if w.key == key.id {
+			at = i
+			break
+		}
+	}
+	if at < 0 {
+		return false, nil, nil
+	}
+	gvr := action.GetResource()
+	cur, err := cl.dyn.Tracker().Get(gvr, key.ns, key.name)
+	if err != nil {
+		return false, nil, nil // nothing stored: the default reaction answers NotFound
+	}
+	w := cl.writers[at]
+	cl.writers = append(append([]c13Writer{}, cl.writers[:at]...), cl.writers[at+1:]...)
+	changed := cur.(*unstructured.Unstructured).DeepCopy()
+	for _, e := range w.edits {
+		f := key.kind.fields[e.f-1]
+		switch e.op {
+		case "set":
+			var v any = "s" + strconv.Itoa(e.n)
+			if key.kind.ints {
+				v = int64(e.n)
+			}
+			if err := unstructured.SetNestedField(changed.Object, v, key.kind.root, f); err != nil {
+				cl.werr = "writer: " + err.Error()
+			}
+		case "del":
+			unstructured.RemoveNestedField(changed.Object, key.kind.root, f)
+		}
+	}
+	if err := cl.dyn.Tracker().Update(gvr, changed, key.ns); err != nil {
+		cl.werr = "writer: " + err.Error()
+	}
+	return true, nil, apierrors.NewConflict(gvr.GroupResource(), key.name, fmt.Errorf("the object has been modified; please apply your changes to the latest version and try again"))
+}
+
+func c13NewCluster(init map[int]c13Obj, writers ...c13Writer) (*c13Cluster, error) {
 	fc := fake.NewFakeCluster(fake.ClusterVersionV119)
 	for _, ns := range c13Namespaces {
 		fc.CreateNs(ns)
@@ -469,7 +560,11 @@ func c13NewCluster(init map[int]c13Obj) (*c13Cluster, error) {
 		return nil, fmt.Errorf("dynamic client is %T", fc.Client.Dynamic())
 	}
 	dyn.ClearActions()
-	return &c13Cluster{fc, dyn}, nil
+	cl := &c13Cluster{fc: fc, dyn: dyn, writers: append([]c13Writer{}, writers...)}
+	if len(writers) > 0 {
+		dyn.PrependReactor("update", "*", cl.interfere)
+	}
+	return cl, nil
 }
 
 // c13Client adapts the test double: kube-client's fake has no cached discovery client, and its
@@ -613,8 +708,8 @@ type c13ExecObs struct {
 
 // c13Handle does what handleRunHook does with the bytes of the patch file: ParseOperations; on
 // error fail without applying anything; else ExecuteOperations and fail on its error.
-func c13Handle(data []byte, init map[int]c13Obj) (obs c13ExecObs) {
-	cl, err := c13NewCluster(init)
+func c13Handle(data []byte, init map[int]c13Obj, writers ...c13Writer) (obs c13ExecObs) {
+	cl, err := c13NewCluster(init, writers...)
 	if err != nil {
 		return c13ExecObs{ans: "harness-error " + err.Error()}
 	}
@@ -640,6 +735,9 @@ func c13Handle(data []byte, init map[int]c13Obj) (obs c13ExecObs) {
 	}
 	lg := cl.actionLog()
 	c := cl.contents()
+	if cl.werr != "" {
+		return c13ExecObs{ans: "harness-error " + cl.werr}
+	}
 	return c13ExecObs{
 		ans:      fmt.Sprintf("done fail=%s nerr=%d panic=0 log=%s cluster=%s", c13B01(err != nil), nerr, lg, c),
 		executed: true, fail: err != nil, log: lg, cluster: c,
@@ -748,7 +846,7 @@ func (g *c13Gen) genCreate() c13Doc {
 	}
 	o := g.obj()
 	mf := c13Manifest(key, av, o)
-	d := c13Doc{valid: true, family: "create:" + mode}
+	d := c13Doc{valid: true, family: "create:" + mode, key: key.id, locks: mode == "CreateOrUpdate"}
 	gvr := c13Resolvable(av, key.kind.name)
 	desc := fmt.Sprintf("C/%s/%d/%s/%s", fl, key.id, c13B01(gvr), c13ObjTok(key.kind, o))
 	switch r := rng.Intn(100); {
@@ -797,7 +895,7 @@ func (g *c13Gen) genDelete() c13Doc {
 	if rng.Chance(20) {
 		m["subresource"] = "status" // accepted by the schema, not used by delete operations
 	}
-	return c13Doc{m: m, valid: true, inline: true, family: "delete:" + mode,
+	return c13Doc{m: m, valid: true, inline: true, family: "delete:" + mode, key: key.id,
 		desc: fmt.Sprintf("D/%s/%d/%s/0", p, key.id, c13B01(gvr))}
 }
 
@@ -826,7 +924,7 @@ func (g *c13Gen) genPatch() c13Doc {
 	if ihe {
 		m["ignoreHookError"] = true
 	}
-	d := c13Doc{m: m, valid: true, inline: true}
+	d := c13Doc{m: m, valid: true, inline: true, key: key.id, locks: kd == "q"}
 	var es []c13Edit
 	body := ""
 	switch kd {
@@ -939,7 +1037,23 @@ func (g *c13Gen) genPatch() c13Doc {
 }
 
 // c13Faults: single-fault mutations that make a valid document invalid (per the documented schema).
-var c13Faults = []string{"unknownOperation", "extraProperty", "missingRequired", "wrongPayloadType", "emptyPayload", "operationNotString", "missingOperation"}
+var c13Faults = []string{"unknownOperation", "extraProperty", "missingRequired", "wrongPayloadType", "emptyPayload", "operationNotString", "missingOperation", "patchItemField"}
+
+// c13BoundaryFaults: the faults that keep the set of keys and the JSON type of every value of the
+// document (only a value-level rule of the schema is broken: minProperties, minItems, required /
+// minLength inside the first jsonPatch item).
+var c13BoundaryFaults = []string{"emptyPayload", "patchItemField"}
+
+// c13InlinePayload: the name of the free-form field of the document when it is written inline.
+func c13InlinePayload(d c13Doc) string {
+	for _, p := range []string{"object", "mergePatch", "jsonPatch"} {
+		switch d.m[p].(type) {
+		case map[string]any, []any:
+			return p
+		}
+	}
+	return ""
+}
 
 func c13ApplyFault(d c13Doc, fault string, rng *Rng) c13Doc {
 	m := map[string]any{}
@@ -990,6 +1104,30 @@ func c13ApplyFault(d c13Doc, fault string, rng *Rng) c13Doc {
 		default:
 			delete(m, "name")
 		}
+	case "patchItemField":
+		// the schema validates the first item of an inline jsonPatch: op, path, value are required,
+		// op and path are non-empty strings
+		arr, ok := m["jsonPatch"].([]any)
+		if !ok || len(arr) == 0 {
+			return c13ApplyFault(d, "emptyPayload", rng)
+		}
+		it := map[string]any{}
+		for k, v := range arr[0].(map[string]any) {
+			it[k] = v
+		}
+		switch rng.Intn(5) {
+		case 0:
+			delete(it, "op")
+		case 1:
+			delete(it, "path")
+		case 2:
+			delete(it, "value")
+		case 3:
+			it["op"] = ""
+		default:
+			it["path"] = ""
+		}
+		m["jsonPatch"] = append([]any{it}, arr[1:]...)
 	}
 	if fault == "extraProperty" {
 		// the rest of the document stays as it is (the unrepaired typed decoders dropped the key)
@@ -1017,6 +1155,10 @@ func c13Init(rng *Rng, hot []*c13Key) (map[int]c13Obj, string) {
 		k := PickOne(rng, c13Pool[:8])
 		init[k.id] = c13Obj{1: rng.Range(1, 9)}
 	}
+	return init, c13InitTok(init)
+}
+
+func c13InitTok(init map[int]c13Obj) string {
 	var ids []int
 	for id := range init {
 		ids = append(ids, id)
@@ -1027,14 +1169,15 @@ func c13Init(rng *Rng, hot []*c13Key) (map[int]c13Obj, string) {
 		ps = append(ps, fmt.Sprintf("%d:%s", id, c13ObjTok(c13Pool[id-1].kind, init[id])))
 	}
 	if len(ps) == 0 {
-		return init, "-"
+		return "-"
 	}
-	return init, strings.Join(ps, ";")
+	return strings.Join(ps, ";")
 }
 
-func c13RunCase(c *Case, rng *Rng, init map[int]c13Obj, initTok string, docs []c13Doc, garbled bool) {
+func c13RunCase(c *Case, rng *Rng, init map[int]c13Obj, initTok string, docs []c13Doc, garbled bool, writers ...c13Writer) {
 	c.Op("init "+initTok, "cluster="+initTok)
 	c.Op("garbled "+c13B01(garbled), "ok")
+	c.Op("writers "+c13WritersTok(writers), "ok")
 	for _, d := range docs {
 		x := ""
 		if d.extra {
@@ -1053,7 +1196,7 @@ func c13RunCase(c *Case, rng *Rng, init map[int]c13Obj, initTok string, docs []c
 		pans, ptok, perr := c13Parse(data)
 		c.Op("parse "+form, pans)
 		c.Oracle(fmt.Sprintf("parse form=%s err=%s ops=%s", form, c13B01(perr), ptok))
-		obs := c13Handle(data, init)
+		obs := c13Handle(data, init, writers...)
 		c.Op("exec "+form, obs.ans)
 		c.Oracle(fmt.Sprintf("exec form=%s executed=%s fail=%s log=%s cluster=%s", form, c13B01(obs.executed), c13B01(obs.fail), obs.log, obs.cluster))
 		sig[form] = strings.ReplaceAll(pans+"|"+obs.ans, " ", ",")
@@ -1087,15 +1230,79 @@ func c13Random(c *Case, rng *Rng) {
 	garbled := false
 	mode := "valid"
 	switch r := rng.Intn(100); {
-	case r < 30:
+	case r < 24:
 		i := rng.Intn(n)
 		f := PickOne(rng, c13Faults)
 		docs[i] = c13ApplyFault(docs[i], f, rng)
 		mode = "invalid:" + f
 		c.Note(fmt.Sprintf("invalid-at:%d/%d", i+1, n))
-	case r < 38:
+	case r < 40:
+		// an invalid document AFTER its valid twin: the single-fault copy of a valid document of the
+		// stream is inserted somewhere behind it (same operation, same keys; 60%: same JSON types too -
+		// only a value-level rule of the schema is broken)
+		i := rng.Intn(n)
+		f := PickOne(rng, c13Faults)
+		if rng.Chance(60) {
+			f = PickOne(rng, c13BoundaryFaults)
+			for try := 0; try < 40; try++ {
+				p := c13InlinePayload(docs[i])
+				if p != "" && (f != "patchItemField" || p == "jsonPatch") {
+					break
+				}
+				docs[i] = g.genDoc()
+			}
+			c.Note("twin:boundary:" + f + ":" + c13InlinePayload(docs[i]))
+		}
+		j := rng.Range(i+1, n)
+		twin := c13ApplyFault(docs[i], f, rng)
+		docs = append(docs[:j:j], append([]c13Doc{twin}, docs[j:]...)...)
+		n++
+		mode = "invalid-after-valid-twin:" + f
+		c.Note(fmt.Sprintf("invalid-at:%d/%d", j+1, n))
+		c.Note(fmt.Sprintf("twin-distance:%d", j-i))
+	case r < 47:
 		garbled = true
 		mode = "truncated"
+	}
+	// the history of the other clients: changes of somebody else that land between a Get and the
+	// Update of an operation that writes under the optimistic lock (CreateOrUpdate, JQPatch)
+	var writers []c13Writer
+	if rng.Chance(45) {
+		for _, d := range docs {
+			if !d.locks || d.key == 0 || d.key > 8 || !rng.Chance(70) {
+				continue
+			}
+			if _, ok := init[d.key]; !ok && rng.Chance(60) {
+				init[d.key] = g.obj()
+			}
+			nw := 1
+			switch r := rng.Intn(100); {
+			case r < 8:
+				nw = rng.Range(4, 5) // the retry budget (retry.DefaultBackoff: 4 attempts) is used up
+			case r < 35:
+				nw = rng.Range(2, 3)
+			}
+			for ; nw > 0; nw-- {
+				w := c13Writer{key: d.key}
+				for e := rng.Range(1, 2); e > 0; e-- {
+					if rng.Chance(70) {
+						w.edits = append(w.edits, c13Edit{"set", rng.Range(1, 3), rng.Range(1, 9)})
+					} else {
+						w.edits = append(w.edits, c13Edit{"del", rng.Range(1, 3), 0})
+					}
+				}
+				writers = append(writers, w)
+			}
+		}
+		if len(writers) > 1 && rng.Chance(30) {
+			rng.Shuffle(len(writers), func(a, b int) { writers[a], writers[b] = writers[b], writers[a] })
+		}
+		initTok = c13InitTok(init)
+	}
+	if len(writers) > 0 {
+		c.Note(fmt.Sprintf("other-writers:%d", len(writers)))
+	} else {
+		c.Note("other-writers:0")
 	}
 	c.Note("stream:" + mode)
 	c.Note(fmt.Sprintf("docs:%d", n))
@@ -1105,17 +1312,21 @@ func c13Random(c *Case, rng *Rng) {
 	if g.ints {
 		c.Note("inline-object-with-integer-field")
 	}
-	c.Desc = fmt.Sprintf("%d docs, %s, init=%s", n, mode, initTok)
+	c.Desc = fmt.Sprintf("%d docs, %s, init=%s, other writers=%s", n, mode, initTok, c13WritersTok(writers))
 	c.Nontrivial = n >= 2
-	c13RunCase(c, rng, init, initTok, docs, garbled)
+	c13RunCase(c, rng, init, initTok, docs, garbled, writers...)
 }
 
 func runC13(r *Run) {
 	r.Rule = "a case = initial cluster (0-4 objects among 8 keys of 2 kinds x 2 namespaces x 2 names, plus an unregistered kind) " +
 		"+ a stream of 1-6 operation documents (3 create variants, 3 delete modes, merge/JSON/jq patches with subresource, " +
 		"ignoreMissingObject, payloads inline / JSON string / YAML string / undecodable string; Deployment payloads carry integer fields) " +
-		"that is valid (62%), has exactly one invalid document (30%: unknown operation, extra property, missing required field, wrong payload type, " +
-		"empty payload, non-string operation) or is truncated (8%); the stream is rendered as JSON and as YAML, both are run through the real " +
+		"that is valid (53%), has exactly one invalid document (24%: unknown operation, extra property, missing required field, wrong payload type, " +
+		"empty payload, non-string operation, a required field / non-empty string missing inside the first jsonPatch item), has an invalid document " +
+		"placed behind the valid document it was derived from (16%; 60% of them differ from the valid twin only by a value-level rule of the schema) " +
+		"or is truncated (7%); 45% of the cases carry a history of other writers: 1-5 changes of somebody else to objects that a CreateOrUpdate / " +
+		"JQPatch of the stream updates, each landing right before the next Update of that object, which a reactor on the fake client then answers " +
+		"409 Conflict; the stream is rendered as JSON and as YAML, both are run through the real " +
 		"ParseOperations + ExecuteOperations on a fresh kube-client/fake cluster and compared with each other and with the model. " +
 		"Non-trivial = at least 2 documents; distinct = distinct op-line sequence."
 	// corpus: the observed defect (YAML Create with an integer field) and hand-written order/validity cases
@@ -1172,6 +1383,76 @@ func runC13(r *Run) {
 			c13RunCase(c, rng, map[int]c13Obj{1: {1: 2}}, "1:1=s2", docs, false)
 		})
 	}
+	// corpus: histories with other writers (an Update answered 409 Conflict after somebody else's change)
+	{
+		cm, dep := c13Pool[0], c13Pool[4]
+		jq := func(filter, body string, sub string, subID int) c13Doc {
+			m := map[string]any{"operation": "JQPatch", "apiVersion": "v1", "kind": "ConfigMap", "namespace": cm.ns, "name": cm.name, "jqFilter": filter}
+			if sub != "" {
+				m["subresource"] = sub
+			}
+			return c13Doc{valid: true, family: "patch:q", m: m, key: cm.id, locks: true,
+				desc: fmt.Sprintf("P/q/%d/1/%d/00/%s", cm.id, subID, body)}
+		}
+		cou := func(o c13Obj) c13Doc {
+			return c13Doc{valid: true, inline: true, family: "create:CreateOrUpdate", key: dep.id, locks: true,
+				m:    map[string]any{"operation": "CreateOrUpdate", "object": c13Manifest(dep, dep.kind.apiVersion, o)},
+				desc: fmt.Sprintf("C/01/%d/1/%s", dep.id, c13ObjTok(dep.kind, o))}
+		}
+		type hist struct {
+			desc    string
+			init    map[int]c13Obj
+			docs    []c13Doc
+			writers []c13Writer
+		}
+		hs := []hist{
+			{"a jq patch meets one other writer who added another field", map[int]c13Obj{cm.id: {1: 1}},
+				[]c13Doc{jq(`.data.f2 = "s4"`, "set.2.s4", "", 0)}, []c13Writer{{cm.id, []c13Edit{{"set", 3, 7}}}}},
+			{"a jq patch meets two other writers; the second one makes the patch a no-op", map[int]c13Obj{cm.id: {1: 1, 2: 2}},
+				[]c13Doc{jq(`del(.data.f2)`, "del.2", "status", 1)}, []c13Writer{{cm.id, []c13Edit{{"set", 1, 5}}}, {cm.id, []c13Edit{{"del", 2, 0}}}}},
+			{"a jq patch loses against four other writers in a row (retry budget), the next one goes through", map[int]c13Obj{cm.id: {1: 1}},
+				[]c13Doc{jq(`.data.f2 = "s4"`, "set.2.s4", "", 0), jq(`.data.f3 = "s5"`, "set.3.s5", "", 0)},
+				[]c13Writer{{cm.id, []c13Edit{{"set", 1, 2}}}, {cm.id, []c13Edit{{"set", 1, 3}}}, {cm.id, []c13Edit{{"set", 1, 4}}}, {cm.id, []c13Edit{{"set", 1, 5}}}}},
+			{"CreateOrUpdate of an existing object meets another writer, then a jq patch meets one", map[int]c13Obj{cm.id: {3: 3}, dep.id: {1: 1}},
+				[]c13Doc{cou(c13Obj{2: 6}), jq(`.data.f1 = "s9" | del(.data.f3)`, "set.1.s9+del.3", "", 0)},
+				[]c13Writer{{cm.id, []c13Edit{{"set", 2, 8}}}, {dep.id, []c13Edit{{"set", 3, 4}}}}},
+		}
+		for i, h := range hs {
+			h := h
+			r.One(5+i, func(c *Case, rng *Rng) {
+				c.Desc = "corpus (history): " + h.desc
+				c.Nontrivial = true
+				c.Note("corpus")
+				c13RunCase(c, rng, h.init, c13InitTok(h.init), h.docs, false, h.writers...)
+			})
+		}
+		// corpus: an invalid document behind a valid document with the same keys and JSON types
+		twins := []struct {
+			fault string
+			doc   c13Doc
+		}{
+			{"emptyPayload", cou(c13Obj{1: 2})},
+			{"emptyPayload", c13Doc{valid: true, inline: true, family: "patch:m", key: cm.id,
+				m:    map[string]any{"operation": "MergePatch", "kind": "ConfigMap", "namespace": cm.ns, "name": cm.name, "mergePatch": map[string]any{"data": map[string]any{"f1": "s3"}}},
+				desc: fmt.Sprintf("P/m/%d/1/0/00/set.1.s3", cm.id)}},
+			{"emptyPayload", c13Doc{valid: true, inline: true, family: "patch:j", key: cm.id,
+				m:    map[string]any{"operation": "JSONPatch", "kind": "ConfigMap", "namespace": cm.ns, "name": cm.name, "jsonPatch": []any{map[string]any{"op": "add", "path": "/data/f2", "value": "s3"}}},
+				desc: fmt.Sprintf("P/j/%d/1/0/00/set.2.s3", cm.id)}},
+			{"patchItemField", c13Doc{valid: true, inline: true, family: "patch:j", key: cm.id,
+				m:    map[string]any{"operation": "JSONPatch", "kind": "ConfigMap", "namespace": cm.ns, "name": cm.name, "jsonPatch": []any{map[string]any{"op": "add", "path": "/data/f2", "value": "s3"}}},
+				desc: fmt.Sprintf("P/j/%d/1/0/00/set.2.s3", cm.id)}},
+		}
+		for i, tw := range twins {
+			tw := tw
+			r.One(9+i, func(c *Case, rng *Rng) {
+				c.Desc = "corpus: a valid document followed by its copy with one value-level fault (" + tw.fault + ")"
+				c.Nontrivial = true
+				c.Note("corpus")
+				init := map[int]c13Obj{cm.id: {1: 1}}
+				c13RunCase(c, rng, init, c13InitTok(init), []c13Doc{tw.doc, c13ApplyFault(tw.doc, tw.fault, rng)}, false)
+			})
+		}
+	}
 	n := r.N(400, 6000)
 	r.Cases(100, n, 64, c13Random)
 
@@ -1221,10 +1502,11 @@ func runC13(r *Run) {
 			total += p
 			p *= A
 		}
-		r.Cases(1000000, 2*total, 64, func(c *Case, rng *Rng) {
+		r.Cases(1000000, 3*total, 64, func(c *Case, rng *Rng) {
 			k := c.Idx - 1000000
-			present := k%2 == 1
-			k /= 2
+			present := k%3 >= 1
+			withWriters := k%3 == 2
+			k /= 3
 			l := 1
 			for p := A; k >= p; p *= A {
 				k -= p
@@ -1241,9 +1523,14 @@ func runC13(r *Run) {
 				initTok = fmt.Sprintf("%d:1=s2;%d:1=i5+2=i6", cm.id, dep.id)
 			}
 			c.Nontrivial = l >= 2
-			c13RunCase(c, rng, init, initTok, docs, false)
+			var writers []c13Writer
+			if withWriters {
+				// somebody else changes both objects once before the first Update of each
+				writers = []c13Writer{{cm.id, []c13Edit{{"set", 3, 7}}}, {dep.id, []c13Edit{{"set", 3, 8}}}}
+			}
+			c13RunCase(c, rng, init, initTok, docs, false, writers...)
 		})
 		r.Exhaust = true
-		r.Extra["exhaustive_scope"] = fmt.Sprintf("all %d streams of 1-3 documents over a %d-symbol alphabet x 2 initial cluster states", total, A)
+		r.Extra["exhaustive_scope"] = fmt.Sprintf("all %d streams of 1-3 documents over a %d-symbol alphabet x (objects absent | present | present with one other writer per object)", total, A)
 	}
 }
